@@ -3,6 +3,8 @@ package progenum
 import (
 	"fmt"
 	"strings"
+
+	"verif/mc/internal/harness"
 )
 
 // oddSnippets are top-level declaration groups; each is analysed alone and in every ordered pair
@@ -44,6 +46,13 @@ var oddSnippets = []string{
 	"func g22[T any](xs []T, x T) int {\n\ttype loc struct {\n\t\tf T\n\t\tn int\n\t}\n\tvar arr [4]loc\n\tvar anon [2]struct{ v T }\n\tn := 0\n\tfor _, v := range arr {\n\t\t_ = v\n\t\tn++\n\t}\n\tfor _, v := range anon {\n\t\t_ = v\n\t\tn++\n\t}\n\tfor _, v := range []loc{{f: x}} {\n\t\t_ = v\n\t}\n\tls := []struct{ a [8]T }{}\n\tfor _, v := range ls {\n\t\t_ = v\n\t}\n\tfor _, v := range xs {\n\t\t_ = v\n\t}\n\treturn n\n}\n\nfunc h22[T any](p struct{ a [16]T }, q [3]struct{ v T }) {}\n\nfunc cmp22[T any](a struct{ v T }, i int64, j int32) bool { return int32(i) < j }\n\nfunc use22() { _ = g22([]int{1}, 2); h22(struct{ a [16]int }{}, [3]struct{ v int }{}); _ = cmp22(struct{ v string }{}, 1, 2) }",
 	// functions and methods named like tests, benchmarks and examples, with every kind of parameter list
 	"type suite23 struct{}\n\nfunc Test23a() {\n\tfor _, x := range [2][300]int{} {\n\t\t_ = x\n\t}\n}\n\nfunc Test23b(p *error) {\n\tfor _, x := range [2][300]int{} {\n\t\t_ = x\n\t}\n}\n\nfunc Test23c(p *int, q *string) {}\n\nfunc Test23d(e error) {}\n\nfunc Test23e(t interface{ Helper() }) {}\n\nfunc Test23f(ps ...*any) {}\n\nfunc Test23g(p **int) (r int) { return }\n\nfunc Test23h(f func(*error)) {}\n\nfunc Test23i(p *struct{ a int }) {}\n\nfunc Test23j(p *[3]int, m map[string]*bool) {\n\tfor _, x := range *p {\n\t\t_ = x\n\t}\n}\n\nfunc Test23k[T any](p *T) {}\n\nfunc (s *suite23) TestMethod() {\n\tfor _, x := range [2][300]int{} {\n\t\t_ = x\n\t}\n}\n\nfunc (suite23) TestValue(p *error) {}\n\nfunc Benchmark23(p *uintptr) {}\n\nfunc Example23() {}\n\nfunc Fuzz23(p *byte) {}\n\nfunc Test() {}\n\nfunc Test_(_ *rune) {}",
+	// boolean expressions nested below operands that are not operators (calls, index expressions, composite
+	// literals, function literals, conversions) of an enclosing boolean expression
+	"func acc24(b bool) bool { return b }\n\nfunc nb24(a, b int, xs []bool, m map[bool]int) bool {\n\tif !acc24(!(a == b)) {\n\t\treturn true\n\t}\n\tif len(xs) > 0 && acc24(!(a == a)) {\n\t\treturn false\n\t}\n\t_ = !xs[len(xs)-1] && xs[0] == !(a != b)\n\t_ = m[!(a < b)] > 0 || m[!(a >= b)] > 0\n\t_ = !(func() bool { return !(a == b) }())\n\t_ = !([]bool{!(a != b)}[0])\n\t_ = !bool(!(a <= b)) && !acc24(!!xs[0])\n\treturn !(!acc24(!(!(a > b))))\n}",
+	// package-level variables initialised by function literals whose bodies hold the statement shapes
+	// checkers keep per-function state for (chains, type-assertion chains, switches, ranges, defers), placed
+	// before any function declaration
+	"var v25a = func(x int, v interface{}) int {\n\tif x == 1 {\n\t\treturn 1\n\t} else if x == 2 {\n\t\treturn 2\n\t} else if x == 3 {\n\t\treturn 3\n\t} else {\n\t\treturn 4\n\t}\n}\n\nvar v25b = func(v interface{}) int {\n\tif _, ok := v.(int); ok {\n\t\treturn 1\n\t} else if _, ok := v.(string); ok {\n\t\treturn 2\n\t} else if _, ok := v.(error); ok {\n\t\treturn 3\n\t}\n\treturn 0\n}\n\nvar v25c, v25d = func(xs [][256]int) (n int) {\n\tfor _, x := range xs {\n\t\tn += x[0]\n\t}\n\tswitch {\n\tcase n == 1:\n\tcase n == 1:\n\t}\n\tdefer func() {}()\n\treturn\n}, []func(){func() {\n\tx := 0\n\tif x == 1 {\n\t} else if x == 2 {\n\t} else if x == 3 {\n\t}\n}}\n\nfunc f25() int { return v25a(1, nil) + v25b(nil) + v25c(nil) + len(v25d) }",
 	// imports with aliases, dot and blank
 	"",
 	// struct tags, embedded fields, anonymous structs
@@ -103,6 +112,15 @@ func Odd(emit func(Prog)) {
 	for i, w := range oddWhole {
 		emit(one(fmt.Sprintf("oddw|%d", i), "odd", w, nil))
 	}
+	// two-file packages in both file orders: one file whose diagnostics carry machine fixes, one whose
+	// diagnostics from the same checkers carry none (a long-lived instance keeps a warning buffer across files)
+	for i, pr := range [][2]string{{oddFixable, oddReportOnly}, {oddReportOnly, oddFixable}} {
+		emit(Prog{ID: fmt.Sprintf("oddmulti|%d", i), Fam: "odd", Path: "vpkg", Files: []harness.File{{Name: "a.go", Src: pr[0]}, {Name: "b.go", Src: pr[1]}}})
+	}
 	// all snippets in one file
 	emit(one("odd|all", "odd", "package vpkg\n\n"+strings.Join(sn, "\n\n")+"\n", nil))
 }
+
+const oddFixable = "package vpkg\n\nimport (\n\t\"fmt\"\n\t\"net/http\"\n\t\"os\"\n\t\"strings\"\n)\n\nfunc fixable(s string, w *os.File) (bool, bool, error) {\n\tfmt.Fprint(w, fmt.Sprintf(\"%d\", 1))\n\t_, err := http.NewRequest(\"GET\", s, nil)\n\tw.Write([]byte(s))\n\treturn strings.Index(s, \".\") >= 0, strings.ToLower(s) == strings.ToLower(\"x\"), err\n}\n"
+
+const oddReportOnly = "package vpkg\n\nimport (\n\t\"bytes\"\n\t\"strings\"\n)\n\nfunc reportOnly(s string, b []byte) (string, []byte, []string, bool) {\n\tif len(s) >= 0 {\n\t\ts = s + s[:]\n\t}\n\treturn strings.Replace(s, \".\", \"\", -1), bytes.Replace(b, b, b, -1), strings.SplitN(s, \".\", -1), strings.Compare(s, \"x\") == 0\n}\n"
